@@ -36,6 +36,11 @@ func (o *goSliceObject) setLength(value Value) {
 		panic(err)
 	}
 
+	if float, _ := value.ToFloat(); want < 0 || float != float64(want) {
+		// Like the length of an array (15.4.5.1 step 3.d).
+		panic(newError(nil, "RangeError", 0, "invalid slice length"))
+	}
+
 	wantInt := int(want)
 	switch {
 	case wantInt == o.value.Len():
